@@ -142,6 +142,17 @@ Definition plain_dop (d : list (key * val)) (o : dop) : res val * list (key * va
   | DReset v => match v with VD d' => (Ok vnone, d') | _ => (Err EValue, d) end
   end.
 
+(* an operation on a container of either kind, and paths into nested data *)
+Inductive nop := OL (o : lop) | OD (o : dop).
+Definition nop_is_read (o : nop) : bool :=
+  match o with OL o => lop_is_read o | OD o => dop_is_read o end.
+(* clear / reset on a root do not load first *)
+Definition nop_no_load (o : nop) : bool :=
+  match o with OL LClear | OL (LReset _) | OD DClear | OD (DReset _) => true | _ => false end.
+
+Inductive pstep := PKey (k : key) | PIdx (i : nat).
+Definition path := list pstep.
+
 (* comparison of results and contents used by the correspondence checks *)
 Definition res_eqb (a b : res val) : bool :=
   match a, b with
